@@ -572,7 +572,58 @@ func c32GenCase(r *vu.RNG) string {
 	return hd + " " + bad + " " + strings.Join(steps, "|")
 }
 
+// all ways to cut the chain 1..L into contiguous responses, in every order of arrival, either
+// all in one Process call or one call per response
+func c32Exhaustive(maxLen int, emit func(string)) {
+	for L := 1; L <= maxLen; L++ {
+		var hdrs []string
+		for i := 0; i < L; i++ {
+			hdrs = append(hdrs, fmt.Sprintf("%x.%x", i, i+1))
+		}
+		for cuts := 0; cuts < 1<<(L-1); cuts++ {
+			var parts []string
+			var cur []string
+			for i := 1; i <= L; i++ {
+				cur = append(cur, fmt.Sprintf("%x/%x/1", i, i))
+				if i == L || cuts&(1<<(i-1)) != 0 {
+					parts = append(parts, "0:1:13:0:"+strings.Join(cur, ","))
+					cur = nil
+				}
+			}
+			perm := make([]int, len(parts))
+			for i := range perm {
+				perm[i] = i
+			}
+			var rec func(k int)
+			rec = func(k int) {
+				if k == len(perm) {
+					ordered := make([]string, len(perm))
+					for i, j := range perm {
+						ordered[i] = parts[j]
+					}
+					emit(strings.Join(hdrs, ";") + " - P" + strings.Join(ordered, "+"))
+					if len(ordered) > 1 {
+						emit(strings.Join(hdrs, ";") + " - P" + strings.Join(ordered, "|P"))
+					}
+					return
+				}
+				for i := k; i < len(perm); i++ {
+					perm[k], perm[i] = perm[i], perm[k]
+					rec(k + 1)
+					perm[k], perm[i] = perm[i], perm[k]
+				}
+			}
+			rec(0)
+		}
+	}
+}
+
 func c32GenAll(r *vu.RNG, n int, emit func(string)) {
+	if vu.Thorough() {
+		c32Exhaustive(6, emit)
+	} else {
+		c32Exhaustive(4, emit)
+	}
 	for i := 0; i < n; i++ {
 		emit(c32GenCase(r))
 	}
